@@ -99,6 +99,198 @@ theorem c09_content_full_fails :
   revert this
   decide
 
+/-! ### who writes the bytes -/
+
+namespace Aux
+
+/-- every dataset of `ds'` already was in `ds` under the same key with the same `wrote` -/
+def KeepsWrote (ds ds' : List (String × Dataset)) : Prop :=
+  ∀ k d', find? ds' k = some d' → ∃ d, find? ds k = some d ∧ d'.wrote = d.wrote
+
+theorem kw_refl (ds : List (String × Dataset)) : KeepsWrote ds ds := fun _ d' h => ⟨d', h, rfl⟩
+
+theorem kw_trans {a b c : List (String × Dataset)} (h1 : KeepsWrote a b) (h2 : KeepsWrote b c) : KeepsWrote a c := by
+  intro k d' h
+  obtain ⟨d1, e1, w1⟩ := h2 k d' h
+  obtain ⟨d0, e0, w0⟩ := h1 k d1 e1
+  exact ⟨d0, e0, w1.trans w0⟩
+
+theorem kw_set (ds : List (String × Dataset)) (k : String) (d0 v : Dataset) (h : find? ds k = some d0)
+    (hw : v.wrote = d0.wrote) : KeepsWrote ds (set ds k v) := by
+  intro x d' hx
+  by_cases e : x = k
+  · subst e; rw [find?_set_self _ _ _ _ h] at hx; cases hx; exact ⟨d0, h, hw⟩
+  · rw [find?_set_ne _ _ _ _ e] at hx; exact ⟨d', hx, rfl⟩
+
+theorem kw_erase (ds : List (String × Dataset)) (k : String) (hn : Nd ds) : KeepsWrote ds (erase ds k) := by
+  intro x d' hx
+  by_cases e : x = k
+  · subst e; rw [find?_erase_self _ _ hn] at hx; cases hx
+  · rw [find?_erase_ne _ _ _ e] at hx; exact ⟨d', hx, rfl⟩
+
+theorem kw_purge (s : St) (k : String) (hn : Nd s.ds) : KeepsWrote s.ds (purge s k).ds := by
+  unfold purge
+  cases hd : find? s.ds k with
+  | none => exact kw_refl _
+  | some d =>
+    simp only
+    split
+    · exact kw_set _ _ d _ hd rfl
+    · split
+      · exact kw_refl _
+      · cases find? s.segs k with
+        | none => exact kw_refl _
+        | some g => exact kw_erase _ _ hn
+
+theorem kw_afterClose (s : St) (k : String) (hn : Nd s.ds) : KeepsWrote s.ds (afterClose s k).ds := by
+  unfold afterClose
+  cases find? s.ds k with
+  | none => exact kw_refl _
+  | some d => simp only; split; exact kw_purge s k hn; exact kw_refl _
+
+theorem kw_pageOut (s : St) (k : String) : KeepsWrote s.ds (pageOut s k).ds := by
+  unfold pageOut
+  cases hd : find? s.ds k with
+  | none => exact kw_refl _
+  | some d => exact kw_set _ _ d _ hd rfl
+
+theorem kw_pageOutAll (ws : List String) : ∀ (s : St), KeepsWrote s.ds (pageOutAll s ws).ds := by
+  induction ws with
+  | nil => intro s; exact kw_refl _
+  | cons k ws ih => intro s; simp only [pageOutAll, List.foldl_cons]; exact kw_trans (kw_pageOut s k) (ih _)
+
+theorem kw_pageOutAtLeast (s : St) (a t : Nat) : KeepsWrote s.ds (pageOutAtLeast s a t).ds := by
+  unfold pageOutAtLeast
+  split
+  · exact kw_refl _
+  · simp only; split
+    · exact kw_refl _
+    · exact kw_pageOutAll _ { s with lock := true, count := _ }
+
+theorem kw_closeCb (s : St) (k r : String) (hn : Nd s.ds) : KeepsWrote s.ds (closeCb s k r).1.ds := by
+  unfold closeCb
+  cases hd : find? s.ds k with
+  | none => exact kw_refl _
+  | some d =>
+    simp only
+    split
+    · split
+      · exact kw_refl _
+      · exact kw_trans (kw_set _ _ d { d with status := .inMemory } hd rfl)
+          (kw_afterClose { s with ds := set s.ds k { d with status := .inMemory } } k (nd_set _ _ _ hn))
+    · split
+      · exact kw_refl _
+      · exact kw_trans (kw_set _ _ d { d with readers := eraseReader d.readers r } hd rfl)
+          (kw_afterClose { s with ds := set s.ds k { d with readers := eraseReader d.readers r } } k (nd_set _ _ _ hn))
+
+theorem kw_get (s : St) (k : String) (t : Nat) (cands : List String) : KeepsWrote s.ds (get s k t cands).1.ds := by
+  unfold get
+  cases hd : find? s.ds k with
+  | none => exact kw_refl _
+  | some d =>
+    simp only
+    split
+    · exact kw_refl _
+    · exact kw_refl _
+    · exact kw_refl _
+    · split
+      · exact kw_pageOutAtLeast _ _ _
+      · exact kw_set _ _ d _ hd rfl
+    · split
+      · exact kw_refl _
+      · exact kw_set _ _ d _ hd rfl
+
+theorem ioStep_ds (s : St) (id : Nat) (inj : IoRes) : (ioStep s id inj).1.ds = s.ds := by
+  unfold ioStep
+  cases findJob s.jobs id with
+  | none => rfl
+  | some j =>
+    simp only
+    split
+    · rfl
+    · cases j.kind with
+      | out => simp only; split; rfl; cases find? s.segs j.key <;> rfl
+      | inn =>
+        simp only; split; rfl
+        cases find? s.segs j.key with
+        | some g => rfl
+        | none => simp only; split; rfl; split <;> rfl
+
+theorem kw_cbStep (s : St) (id : Nat) (hn : Nd s.ds) : KeepsWrote s.ds (cbStep s id).1.ds := by
+  unfold cbStep
+  cases findJob s.jobs id with
+  | none => exact kw_refl _
+  | some j =>
+    simp only
+    cases j.io with
+    | none => exact kw_refl _
+    | some b =>
+      have hss : ∀ st, KeepsWrote s.ds (setStatusIfSame s.ds j.key j.gen st) := by
+        intro st
+        unfold setStatusIfSame
+        cases hd : find? s.ds j.key with
+        | none => exact kw_refl _
+        | some d => simp only; split; exact kw_set _ _ d _ hd rfl; exact kw_refl _
+      cases j.kind <;> cases b <;> simp only [decCount]
+      · exact kw_purge { s with jobs := eraseJob s.jobs id } j.key hn
+      · exact hss _
+      · exact kw_purge { s with jobs := eraseJob s.jobs id } j.key hn
+      · exact hss _
+
+end Aux
+
+/-- The ghost field `wrote` of the content theorem is what it claims to be: the writer's
+create-and-write step records its token and puts exactly these bytes into the fresh segment … -/
+theorem c09_writer_writes (s : St) (k : String) (size tok : Nat) (d : Dataset) (hd : find? s.ds k = some d)
+    (hg : find? s.segs k = none) :
+    (cwrite s k size tok).2 = .ok ∧ find? (cwrite s k size tok).1.segs k = some ⟨size, tok⟩ ∧
+    ∃ d', find? (cwrite s k size tok).1.ds k = some d' ∧ d'.wrote = some tok := by
+  have e : cwrite s k size tok = ({ s with segs := s.segs ++ [(k, { size := size, data := tok })], ds := set s.ds k { d with wrote := some tok } }, .ok) := by
+    simp [cwrite, hg, hd]
+  rw [e]
+  exact ⟨rfl, find?_append_self _ _ _ hg, _, find?_set_self _ _ _ _ hd, rfl⟩
+
+/-- … and no other step of any client or disk job changes `wrote` of a stored dataset
+(for EVERY state with unique keys). -/
+theorem c09_wrote_only_by_writer (s : St) (hn : Nd s.ds) (op : Op) (k : String) (d d' : Dataset)
+    (hd : find? s.ds k = some d) (hd' : find? (step s op).1.ds k = some d')
+    (hop : ∀ size tok, op ≠ .cwrite k size tok) : d'.wrote = d.wrote := by
+  have fin : KeepsWrote s.ds (step s op).1.ds → d'.wrote = d.wrote := by
+    intro h
+    obtain ⟨d0, e0, w0⟩ := h k d' hd'
+    rw [hd] at e0; cases e0; exact w0
+  cases op with
+  | freeSpace => exact fin (kw_refl _)
+  | purge k' => exact fin (kw_purge s k' hn)
+  | closeW k' => exact fin (kw_closeCb s k' "" hn)
+  | closeR k' r => exact fin (kw_closeCb s k' r hn)
+  | get k' t cands => exact fin (kw_get s k' t cands)
+  | io id inj => exact fin (by simp only [step]; rw [ioStep_ds]; exact kw_refl _)
+  | cb id => exact fin (kw_cbStep s id hn)
+  | add k' size deser t =>
+    simp only [step, add] at hd'
+    split at hd'
+    · rw [hd] at hd'; cases hd'; rfl
+    · split at hd'
+      · rw [hd] at hd'; cases hd'; rfl
+      · split at hd'
+        · obtain ⟨d0, e0, w0⟩ := kw_pageOutAtLeast s _ t k d' hd'
+          rw [hd] at e0; cases e0; exact w0
+        · simp only at hd'
+          rw [find?_append_some _ _ _ _ _ hd] at hd'; cases hd'; rfl
+  | cwrite k' size tok =>
+    have hk : k ≠ k' := by intro e; subst e; exact hop size tok rfl
+    simp only [step, cwrite] at hd'
+    cases hg : find? s.segs k' with
+    | some g => simp only [hg] at hd'; rw [hd] at hd'; cases hd'; rfl
+    | none =>
+      simp only [hg] at hd'
+      cases hk' : find? s.ds k' with
+      | none => simp only [hk'] at hd'; rw [hd] at hd'; cases hd'; rfl
+      | some dk =>
+        simp only [hk'] at hd'
+        rw [find?_set_ne _ _ _ _ hk, hd] at hd'; cases hd'; rfl
+
 /-! ### not readable before the writer has finished -/
 
 /-- `get` on a dataset whose writer has not closed (`created`) — and likewise while it is being
@@ -171,6 +363,7 @@ theorem c09_protected_purge (s : St) (k : String) (d : Dataset) (hd : find? s.ds
 theorem c09_keys_unique (cap sc sr : Nat) (ops : List Op) : Nd (run (init cap sc sr) ops).ds :=
   (base_run ops _ (base_init cap sc sr)).nd
 
+
 /-! ### delayed purge -/
 
 /-- The close of the last reader executes a purge that arrived during the read: the dataset is
@@ -196,6 +389,240 @@ theorem c09_delayed_purge_waits (s : St) (k r : String) (d : Dataset) (hd : find
     cases h : eraseReader d.readers r <;> simp [h] at hrest ⊢
   have hd' : ∀ w, find? (set s.ds k w) k = some w := fun w => find?_set_self s.ds k w d hd
   simp [closeCb, hd, hne, hst, afterClose, hd', this]
+
+/-! ### protection across every step -/
+
+namespace Aux
+
+theorem purge_other (s : St) (k' k : String) (h : k ≠ k') :
+    find? (purge s k').ds k = find? s.ds k ∧ find? (purge s k').segs k = find? s.segs k := by
+  unfold purge
+  cases find? s.ds k' with
+  | none => exact ⟨rfl, rfl⟩
+  | some d =>
+    simp only
+    split
+    · exact ⟨find?_set_ne _ _ _ _ h, rfl⟩
+    · split
+      · exact ⟨rfl, rfl⟩
+      · cases find? s.segs k' with
+        | none => exact ⟨rfl, rfl⟩
+        | some g => exact ⟨find?_erase_ne _ _ _ h, find?_erase_ne _ _ _ h⟩
+
+theorem afterClose_other (s : St) (k' k : String) (h : k ≠ k') :
+    find? (afterClose s k').ds k = find? s.ds k ∧ find? (afterClose s k').segs k = find? s.segs k := by
+  unfold afterClose
+  cases find? s.ds k' with
+  | none => exact ⟨rfl, rfl⟩
+  | some d => simp only; split; exact purge_other s k' k h; exact ⟨rfl, rfl⟩
+
+theorem mem_erase_ne (rs : List (String × Nat)) (r r' : String) (t0 : Nat) (h : (r, t0) ∈ rs) (hne : r ≠ r') :
+    (r, t0) ∈ erase rs r' := by
+  induction rs with
+  | nil => cases h
+  | cons a rs ih =>
+    obtain ⟨x, tx⟩ := a
+    by_cases hx : x = r'
+    · simp only [erase, hx, ↓reduceIte]
+      rcases List.mem_cons.mp h with h | h
+      · cases h; exact absurd hx hne
+      · exact h
+    · simp only [erase, hx, ↓reduceIte]
+      rcases List.mem_cons.mp h with h | h
+      · rw [h]; exact List.mem_cons_self
+      · exact List.mem_cons_of_mem _ (ih h)
+
+end Aux
+
+/-- the time an operation reads from the clock, if any -/
+def opTime : Op → Option Nat
+  | .add _ _ _ t => some t
+  | .get _ t _ => some t
+  | _ => none
+
+/-- Protected in use, across EVERY step of every client and every disk job: in a state satisfying
+the invariants (`Base`, `Core`: all states reached by `SafeRun` histories), a dataset that is
+`in_memory` and held by a reader `(r, t0)` that is younger than STALE_READ at the time of the step
+is still `in_memory`, still the same object, still held by `r` after the step, and its segment
+is untouched — whatever the step is, except `r`'s own close. -/
+theorem c09_protected_step (s : St) (hb : Base s) (hc : Core s) (op : Op) (k : String) (d : Dataset)
+    (hd : find? s.ds k = some d) (hst : d.status = .inMemory) (r : String) (t0 : Nat) (hr : (r, t0) ∈ d.readers)
+    (hne : op ≠ .closeR k r) (hfresh : ∀ t, opTime op = some t → t ≤ t0 + s.staleRead) :
+    (∃ d', find? (step s op).1.ds k = some d' ∧ d'.status = .inMemory ∧ (r, t0) ∈ d'.readers ∧ d'.gen = d.gen) ∧
+    (∀ g, find? s.segs k = some g → find? (step s op).1.segs k = some g) := by
+  have same : (∃ d', find? s.ds k = some d' ∧ d'.status = .inMemory ∧ (r, t0) ∈ d'.readers ∧ d'.gen = d.gen) :=
+    ⟨d, hd, hst, hr, rfl⟩
+  have hnj : ∀ j ∈ s.jobs, j.key ≠ k := no_job_at s hc k d hd (by simp [hst])
+  have hrne : d.readers ≠ [] := by intro e; rw [e] at hr; cases hr
+  cases op with
+  | freeSpace => exact ⟨same, fun g hg => hg⟩
+  | add k' size deser t =>
+    simp only [step, add]
+    split
+    · exact ⟨same, fun g hg => hg⟩
+    · split
+      · exact ⟨same, fun g hg => hg⟩
+      · split
+        · obtain ⟨h1, h2⟩ := c09_protected s (size - s.free) t hb.nd k d hd r t0 hr (hfresh t rfl) hst
+          exact ⟨⟨d, h1, hst, hr, rfl⟩, fun g hg => by rw [h2]; exact hg⟩
+        · exact ⟨⟨d, find?_append_some _ _ _ _ _ hd, hst, hr, rfl⟩, fun g hg => hg⟩
+  | cwrite k' size tok =>
+    simp only [step, cwrite]
+    cases hg' : find? s.segs k' with
+    | some g' => exact ⟨same, fun g hg => hg⟩
+    | none =>
+      simp only
+      by_cases hk : k = k'
+      · subst hk
+        simp only [hd]
+        exact ⟨⟨_, find?_set_self _ _ _ _ hd, hst, hr, rfl⟩, fun g hg => by rw [hg'] at hg; cases hg⟩
+      · refine ⟨?_, fun g hg => by rw [find?_append_ne _ _ _ _ hk]; exact hg⟩
+        cases find? s.ds k' with
+        | none => exact same
+        | some d' => exact ⟨d, by simp only; rw [find?_set_ne _ _ _ _ hk]; exact hd, hst, hr, rfl⟩
+  | closeW k' =>
+    by_cases hk : k = k'
+    · subst hk
+      have e : closeCb s k "" = (s, .valueError) := by simp [closeCb, hd, hst]
+      simp only [step, e]; exact ⟨same, fun g hg => hg⟩
+    · simp only [step, closeCb]
+      cases hd' : find? s.ds k' with
+      | none => exact ⟨same, fun g hg => hg⟩
+      | some d' =>
+        simp only [↓reduceIte]
+        split
+        · exact ⟨same, fun g hg => hg⟩
+        · obtain ⟨a1, a2⟩ := afterClose_other { s with ds := set s.ds k' { d' with status := .inMemory } } k' k hk
+          refine ⟨⟨d, ?_, hst, hr, rfl⟩, fun g hg => by rw [a2]; exact hg⟩
+          rw [a1]; simp only; rw [find?_set_ne _ _ _ _ hk]; exact hd
+  | closeR k' r' =>
+    by_cases hk : k = k'
+    · subst hk
+      have hr' : r ≠ r' := by intro e; subst e; exact hne rfl
+      by_cases he : r' = ""
+      · subst he
+        have e : closeCb s k "" = (s, .valueError) := by simp [closeCb, hd, hst]
+        simp only [step, e]; exact ⟨same, fun g hg => hg⟩
+      · have hm := mem_erase_ne d.readers r r' t0 hr hr'
+        have hrest : eraseReader d.readers r' ≠ [] := by
+          intro e; unfold eraseReader at e; rw [e] at hm; cases hm
+        simp only [step, c09_delayed_purge_waits s k r' d hd hst he hrest]
+        exact ⟨⟨_, find?_set_self _ _ _ _ hd, hst, hm, rfl⟩, fun g hg => hg⟩
+    · simp only [step, closeCb]
+      cases hd' : find? s.ds k' with
+      | none => exact ⟨same, fun g hg => hg⟩
+      | some d' =>
+        simp only
+        split
+        · split
+          · exact ⟨same, fun g hg => hg⟩
+          · obtain ⟨a1, a2⟩ := afterClose_other { s with ds := set s.ds k' { d' with status := .inMemory } } k' k hk
+            refine ⟨⟨d, ?_, hst, hr, rfl⟩, fun g hg => by rw [a2]; exact hg⟩
+            rw [a1]; simp only; rw [find?_set_ne _ _ _ _ hk]; exact hd
+        · split
+          · exact ⟨same, fun g hg => hg⟩
+          · obtain ⟨a1, a2⟩ := afterClose_other { s with ds := set s.ds k' { d' with readers := eraseReader d'.readers r' } } k' k hk
+            refine ⟨⟨d, ?_, hst, hr, rfl⟩, fun g hg => by rw [a2]; exact hg⟩
+            rw [a1]; simp only; rw [find?_set_ne _ _ _ _ hk]; exact hd
+  | get k' t cands =>
+    simp only [step, get]
+    by_cases hk : k = k'
+    · subst hk
+      simp only [hd, hst]
+      cases firstFresh d.readers cands with
+      | none => exact ⟨same, fun g hg => hg⟩
+      | some r' =>
+        simp only
+        exact ⟨⟨_, find?_set_self _ _ _ _ hd, by first | rfl | exact hst, List.mem_append_left _ hr, rfl⟩, fun g hg => hg⟩
+    · cases hd' : find? s.ds k' with
+      | none => exact ⟨same, fun g hg => hg⟩
+      | some d' =>
+        simp only
+        split
+        · exact ⟨same, fun g hg => hg⟩
+        · exact ⟨same, fun g hg => hg⟩
+        · exact ⟨same, fun g hg => hg⟩
+        · split
+          · obtain ⟨h1, h2⟩ := c09_protected s (d'.size - s.free) t hb.nd k d hd r t0 hr (hfresh t rfl) hst
+            exact ⟨⟨d, h1, hst, hr, rfl⟩, fun g hg => by rw [h2]; exact hg⟩
+          · exact ⟨⟨d, by simp only [pageIn]; rw [find?_set_ne _ _ _ _ hk]; exact hd, hst, hr, rfl⟩, fun g hg => hg⟩
+        · split
+          · exact ⟨same, fun g hg => hg⟩
+          · exact ⟨⟨d, by simp only; rw [find?_set_ne _ _ _ _ hk]; exact hd, hst, hr, rfl⟩, fun g hg => hg⟩
+  | purge k' =>
+    simp only [step]
+    by_cases hk : k = k'
+    · subst hk
+      rw [c09_protected_purge s k d hd hrne]
+      exact ⟨⟨_, find?_set_self _ _ _ _ hd, hst, hr, rfl⟩, fun g hg => hg⟩
+    · obtain ⟨a1, a2⟩ := purge_other s k' k hk
+      exact ⟨⟨d, by rw [a1]; exact hd, hst, hr, rfl⟩, fun g hg => by rw [a2]; exact hg⟩
+  | io id inj =>
+    simp only [step, ioStep]
+    cases hf : findJob s.jobs id with
+    | none => exact ⟨same, fun g hg => hg⟩
+    | some j =>
+      simp only
+      have hjk : k ≠ j.key := fun e => hnj j (findJob_some _ _ _ hf).1 e.symm
+      split
+      · exact ⟨same, fun g hg => hg⟩
+      · cases j.kind with
+        | out =>
+          simp only
+          split
+          · exact ⟨same, fun g hg => hg⟩
+          · cases find? s.segs j.key with
+            | none => exact ⟨same, fun g hg => hg⟩
+            | some g' => exact ⟨same, fun g hg => by simp only; rw [find?_erase_ne _ _ _ hjk]; exact hg⟩
+        | inn =>
+          simp only
+          split
+          · exact ⟨same, fun g hg => hg⟩
+          · cases find? s.segs j.key with
+            | some g' => exact ⟨same, fun g hg => hg⟩
+            | none =>
+              simp only
+              split
+              · exact ⟨same, fun g hg => by simp only; rw [find?_append_ne _ _ _ _ hjk]; exact hg⟩
+              · split
+                · exact ⟨same, fun g hg => by simp only; rw [find?_append_ne _ _ _ _ hjk]; exact hg⟩
+                · exact ⟨same, fun g hg => by simp only; rw [find?_append_ne _ _ _ _ hjk]; exact hg⟩
+  | cb id =>
+    simp only [step, cbStep]
+    cases hf : findJob s.jobs id with
+    | none => exact ⟨same, fun g hg => hg⟩
+    | some j =>
+      simp only
+      have hjk : k ≠ j.key := fun e => hnj j (findJob_some _ _ _ hf).1 e.symm
+      cases j.io with
+      | none => exact ⟨same, fun g hg => hg⟩
+      | some b =>
+        simp only
+        have hss : ∀ st, find? (setStatusIfSame s.ds j.key j.gen st) k = some d := by
+          intro st
+          unfold setStatusIfSame
+          cases find? s.ds j.key with
+          | none => exact hd
+          | some dj => simp only; split; rw [find?_set_ne _ _ _ _ hjk]; exact hd; exact hd
+        cases j.kind <;> cases b <;> simp only [decCount]
+        · obtain ⟨a1, a2⟩ := purge_other { s with jobs := eraseJob s.jobs id } j.key k hjk
+          exact ⟨⟨d, by rw [a1]; exact hd, hst, hr, rfl⟩, fun g hg => by rw [a2]; exact hg⟩
+        · exact ⟨⟨d, hss _, hst, hr, rfl⟩, fun g hg => hg⟩
+        · obtain ⟨a1, a2⟩ := purge_other { s with jobs := eraseJob s.jobs id } j.key k hjk
+          exact ⟨⟨d, by rw [a1]; exact hd, hst, hr, rfl⟩, fun g hg => by rw [a2]; exact hg⟩
+        · exact ⟨⟨d, hss _, hst, hr, rfl⟩, fun g hg => hg⟩
+
+/-- `c09_protected_step` for the states reached by `SafeRun` histories (same gap as
+`c09_content_partial`: the purge/disk-job race, where an orphaned page-out job can unlink the
+segment of a re-allocated key even while it is being read). -/
+theorem c09_protected_history_partial (cap sc sr : Nat) (ops : List Op) (hs : SafeRun (init cap sc sr) ops)
+    (op : Op) (k : String) (d : Dataset) (hd : find? (run (init cap sc sr) ops).ds k = some d) (hst : d.status = .inMemory)
+    (r : String) (t0 : Nat) (hr : (r, t0) ∈ d.readers) (hne : op ≠ .closeR k r)
+    (hfresh : ∀ t, opTime op = some t → t ≤ t0 + (run (init cap sc sr) ops).staleRead) :
+    (∃ d', find? (step (run (init cap sc sr) ops) op).1.ds k = some d' ∧ d'.status = .inMemory ∧ (r, t0) ∈ d'.readers ∧ d'.gen = d.gen) ∧
+    (∀ g, find? (run (init cap sc sr) ops).segs k = some g → find? (step (run (init cap sc sr) ops) op).1.segs k = some g) := by
+  obtain ⟨hb, hc⟩ := core_run ops _ (base_init cap sc sr) (core_init cap sc sr) hs
+  exact c09_protected_step _ hb hc op k d hd hst r t0 hr hne hfresh
 
 /-! ### lock discipline -/
 
@@ -317,6 +744,19 @@ theorem c09_eventually_granted_partial (cap sc sr : Nat) (ops : List Op) (hs : S
   exact eventually_granted _ hb hc k size deser t t' hq hk hcap hroom hw
 
 /-! ### non-vacuity -/
+
+/-- a held dataset under memory pressure: `a` (6 of 10 bytes) is read by `r1`; `add b 6` must wait and `a` stays -/
+example :
+    SafeRun (init 10 900 900) [.add "a" 6 "" 1, .cwrite "a" 6 7, .closeW "a", .get "a" 5 ["r1"]] ∧
+    (find? (run (init 10 900 900) [.add "a" 6 "" 1, .cwrite "a" 6 7, .closeW "a", .get "a" 5 ["r1"]]).ds "a").map
+        (fun d => decide (d.status = .inMemory) && d.readers.contains ("r1", 5)) = some true ∧
+    (step (run (init 10 900 900) [.add "a" 6 "" 1, .cwrite "a" 6 7, .closeW "a", .get "a" 5 ["r1"]]) (.add "b" 6 "" 6)).2 = .add .wait ∧
+    (find? (step (run (init 10 900 900) [.add "a" 6 "" 1, .cwrite "a" 6 7, .closeW "a", .get "a" 5 ["r1"]]) (.add "b" 6 "" 6)).1.ds "a").map
+        (fun d => d.status) = some .inMemory ∧
+    -- ... while 15 minutes later the same reader no longer protects it
+    (find? (step (run (init 10 900 900) [.add "a" 6 "" 1, .cwrite "a" 6 7, .closeW "a", .get "a" 5 ["r1"]]) (.add "b" 6 "" 906)).1.ds "a").map
+        (fun d => d.status) = some .pagingOut := by
+  decide
 
 /-- the hypotheses of `c09_eventually_granted_partial` hold in a concrete reachable state and the
 `wait`-then-granted branch is the one taken -/
